@@ -14,6 +14,11 @@ import (
 // over the atoms and operators whose rank is at least rankFor(K); binding operators add the names they bind to the atom
 // set of the holes in their scope ($x, f, g, break $l ...).
 //
+// fq's fromjson costs about 1 ms per call (it runs the whole decode machinery),
+// a hundred times any other built-in, so it has the lowest rank: as an atom it is
+// used in programs of size <= 1 only, as `E | fromjson` additionally in the
+// thorough size 2 set. Its own full product is L2.
+//
 // No operator or atom is an unbounded generator (no repeat/while/until/
 // recurse(f)/range of an expression), so every program terminates.
 
@@ -125,7 +130,7 @@ func allOps() []op {
 		u("test(%0)", 4), b("test(%0; %1)", 3), u("match(%0)", 3), b("match(%0; %1)", 2),
 		u("capture(%0)", 3), b("capture(%0; %1)", 1), u("scan(%0)", 3), b("scan(%0; %1)", 1),
 		u("debug(%0)", 4), u("%0 | debug", 3), u("%0 | stderr", 3),
-		u("%0 | explode", 4), u("%0 | tojson", 4), u("%0 | fromjson", 4), u("%0 | tojson | fromjson", 1),
+		u("%0 | explode", 4), u("%0 | tojson", 4), u("%0 | fromjson", 2), u("%0 | tojson | fromjson", 1),
 		// built-ins implemented on top of the regex primitives
 		u("sub(%0; \"z\")", 3), b("sub(%0; %1)", 1), b("gsub(%0; %1)", 1), u("[match(%0; \"g\")] | length", 1),
 		t("sub(%0; %1; %2)", 1, nil, nil, nil),
@@ -152,7 +157,7 @@ func allAtoms() []atom {
 		{".", 4}, {".a", 3}, {".[]", 4}, {".[0]", 1}, {"..", 1}, {".[]?", 1}, {".a?", 1}, {".c", 1}, {".[-1]", 1}, {".[1:]", 1},
 		{".a.b", 1}, {".[\"c\"][1]", 1}, {".[:1]", 1},
 		// literals
-		{"null", 2}, {"true", 1}, {"false", 1}, {"0", 1}, {"1", 3}, {"-1", 1}, {"1.5", 1}, {"\"a\"", 4}, {"\"a,b\"", 1}, {"\",\"", 1},
+		{"null", 2}, {"true", 1}, {"false", 1}, {"0", 1}, {"1", 4}, {"-1", 1}, {"1.5", 1}, {"\"a\"", 4}, {"\"a,b\"", 1}, {"\",\"", 1},
 		{"[]", 1}, {"{}", 1}, {"[1,[2]]", 1}, {"{\"a\":1}", 1}, {"10000000000000000000", 1}, {"empty", 3}, {"error", 1},
 		{"\"\"", 1}, {"\"g\"", 1}, {"\"(?<x>a)|(b)\"", 1},
 		// standard built-ins fq leaves alone (representatives of the families named in the property)
@@ -162,7 +167,7 @@ func allAtoms() []atom {
 		{"tostream", 1}, {"min", 1}, {"flatten", 1}, {"utf8bytelength", 1}, {"ascii_upcase", 1}, {"trim", 1}, {"abs", 1},
 		{"transpose", 1}, {"values", 1}, {"scalars", 1}, {"recurse", 1}, {"any", 1}, {"all", 1}, {"nan", 1}, {"infinite", 1},
 		// standard built-ins fq redefines or wraps
-		{"explode", 2}, {"tojson", 2}, {"fromjson", 4}, {"debug", 2}, {"stderr", 1},
+		{"explode", 2}, {"tojson", 2}, {"fromjson", 1}, {"debug", 2}, {"stderr", 1},
 		{"split(\",\")", 4}, {"splits(\",\")", 1}, {"test(\"a\")", 1}, {"match(\"a\")", 1}, {"capture(\"(?<x>a)\")", 1}, {"scan(\"a\")", 1},
 		{"split(\",\"; \"g\")", 1}, {"split(\"\")", 1}, {"split(\".\")", 1}, {"test(\"A\"; \"i\")", 1}, {"debug(\"m\")", 1},
 		{"[match(\".\"; \"g\")]", 1}, {"sub(\"a\"; \"b\")", 1}, {"gsub(\"\"; \"-\")", 1}, {"@text", 1}, {"todate", 1},
